@@ -7,7 +7,7 @@
    gone with all its subscriptions.  Values seen by observers and the order of notifications are tied by correspondence and by
    PropCheck.check_c02 on every reached world (tests).  See DESIGN.md 6/C11. *)
 From KDB Require Import Util GenIdx GenIdxProofs SigDefs SigInv SigTheorems SigEmit SigDisc.
-From KDB Require PropDefs PropFlags PropLink PropLinkTheorems PropLinkMove.
+From KDB Require PropDefs PropFlags PropLink PropLinkTheorems PropLinkMove PropSim PropMove.
 
 Theorem C11_signal_move_transfers :
   forall pf R w src dst x, lookup (w_sigs w) src = Some x -> src <> dst ->
@@ -98,6 +98,37 @@ Theorem C11_no_signal_left_emitting :
   forall fn rtl fuel w o, PropFlags.NOEMIT w -> PropFlags.NOEMIT (PropDefs.step fn rtl fuel w o).
 Proof. exact PropFlags.step_noemit. Qed.
 Print Assumptions C11_no_signal_left_emitting.
+
+(* VALUES across a move construction (PropMove.v): the destination holds the value and the updater of the source, the source keeps
+   its value and has no updater, no subscription appears or disappears, every binding is alive as before ... *)
+Theorem C11_property_move_construction_transfers :
+  forall fn rtl fuel w src dst w',
+    PropLink.pinv w -> PropSim.NOACT w -> PropFlags.NOEMIT w ->
+    PropDefs.step1 fn rtl fuel w (PropDefs.PMoveCtor src dst) = (w', None) ->
+    exists s0 dn sn,
+      lookup (PropDefs.w_props w) src = Some s0 /\ lookup (PropDefs.w_props w) dst = None /\ src <> dst /\
+      PropDefs.pr_value dn = PropDefs.pr_value s0 /\ PropDefs.pr_updater dn = PropDefs.pr_updater s0 /\
+      PropDefs.pr_value sn = PropDefs.pr_value s0 /\ PropDefs.pr_updater sn = None /\
+      (forall q, lookup (PropDefs.w_props w') q = if Nat.eqb q dst then Some dn else if Nat.eqb q src then Some sn else lookup (PropDefs.w_props w) q) /\
+      (forall t pos ser s1, PropLink.slot_at w' t pos ser s1 <-> PropLink.slot_at w t pos ser s1) /\
+      (forall b, match PropDefs.get_bind w b, PropDefs.get_bind w' b with
+                 | Some x, Some x' => PropDefs.b_evp x' = PropDefs.b_evp x /\
+                                      PropSim.abs_tree (PropDefs.b_root x') =
+                                      option_map (PropMove.aren (PropMove.rn src dst)) (PropSim.abs_tree (PropDefs.b_root x))
+                 | None, None => True
+                 | _, _ => False end).
+Proof. exact PropMove.movector_shape. Qed.
+Print Assumptions C11_property_move_construction_transfers.
+
+(* ... and "bindings that read a moved property follow it and keep tracking it", "the binding keeps updating the destination":
+   in a world of immediate bindings every bound property still equals its expression over the current inputs after the move, and
+   (C02_network_with_moves_consistent) after every later assignment *)
+Theorem C11_property_move_construction_keeps_values :
+  forall fn rtl fuel w src dst w',
+    PropSim.SC w -> PropSim.COH fn w -> PropFlags.NOEMIT w ->
+    PropDefs.step1 fn rtl fuel w (PropDefs.PMoveCtor src dst) = (w', None) -> PropSim.SC w' /\ PropSim.COH fn w'.
+Proof. exact PropMove.grow_movector. Qed.
+Print Assumptions C11_property_move_construction_keeps_values.
 
 (* non-vacuity: an input is move-constructed away and then move-assigned over another input of the same binding; legal, invariant
    holds, the binding follows (value 3+3 after the write to the final location), the overwritten input's reader reports
